@@ -24,19 +24,27 @@ def mode_cmds(o, mode, loose=False, ticks=1):
 
 
 def random_history(rng, nev=10):
-    """one protocol history on up to 3 object slots: returns script lines"""
+    """one protocol history on up to 3 object slots: returns script lines.  Several objects may be initialised at the same
+    time: the source of a move stays alive, may be re-initialised and used again next to the object that took its state."""
     cmds = []
-    nx, nsun, nrhos, nsc = rng.choice([1, 2, 3]), rng.choice([2, 3, 4]), rng.choice([1, 2]), rng.choice([0, 1, 2])
+    shape = lambda: (rng.choice([1, 2, 3]), rng.choice([2, 3, 4]), rng.choice([1, 2]), rng.choice([0, 1, 2]))
     live = {1: True}
-    cmds.append("NEW 1 %d %d %d %d %d" % (nx, nsun, nrhos, nsc, rng.choice([0, -10, 4000])))
-    cur = 1
-    cmds += mode_cmds(cur, rng.choice(MODES), loose=True)
+    inited = [1]
+    cmds.append("NEW 1 %d %d %d %d %d" % (shape() + (rng.choice([0, -10, 4000]),)))
+    cmds += mode_cmds(1, rng.choice(MODES), loose=True)
     for k in range(1, 6):
         if rng.random() < 0.5:
-            cmds.append("SW %d %d 1" % (cur, k))
-    inited = True
+            cmds.append("SW 1 %d 1" % k)
     for _ in range(nev):
         r = rng.random()
+        idle = [o for o in live if o not in inited]
+        if idle and (not inited or rng.random() < 0.35):
+            o = rng.choice(idle)                       # a moved-from object is given a new problem
+            cmds.append("INI %d %d %d %d %d %d" % ((o,) + shape() + (rng.choice([0, 8]),)))
+            cmds += mode_cmds(o, rng.choice(MODES), loose=True)
+            inited.append(o)
+            continue
+        cur = rng.choice(inited)
         if r < 0.45:
             cmds.append("EVOLVE %d %d" % (cur, rng.choice([0, 1, 2, 4])))
         elif r < 0.65:
@@ -51,10 +59,11 @@ def random_history(rng, nev=10):
                 cmds.append("MOVEASSIGN %d %d" % (dst, cur))
             else:
                 cmds.append("MOVECTOR %d %d" % (dst, cur)); live[dst] = True
-            cur = dst
+            inited.remove(cur)
+            if dst not in inited:
+                inited.append(dst)
         else:
-            nx, nsun, nrhos, nsc = rng.choice([1, 2, 3]), rng.choice([2, 3, 4]), rng.choice([1, 2]), rng.choice([0, 1, 2])
-            cmds.append("INI %d %d %d %d %d %d" % (cur, nx, nsun, nrhos, nsc, rng.choice([0, 8])))
+            cmds.append("INI %d %d %d %d %d %d" % ((cur,) + shape() + (rng.choice([0, 8]),)))
     for o in sorted(live):
         cmds.append("DESTROY %d" % o)
     return cmds
@@ -142,7 +151,7 @@ def flow_cfg(name, ncfg, maxseg, ticks, first, later, tdep=(0, 1)):
     return p
 
 
-def flow_script(hist, cfg, mode, t04, move_kind, order_seed=0, scale_e2=0):
+def flow_script(hist, cfg, mode, t04, move_kind, order_seed=0, scale_e2=0, coarse=0):
     """script executing a history of segments (sw, n) on slot 1 (moving to slot 2 between segments if asked).
     The five switches reach their values through a seeded order of setter calls, with decoy calls first (the final
     setting must not depend on the order in which the setters were called); scale_e2 != 0 multiplies the initial
@@ -151,6 +160,10 @@ def flow_script(hist, cfg, mode, t04, move_kind, order_seed=0, scale_e2=0):
     rng = _r.Random(order_seed)
     nx, nsun, nrhos, nsc = cfg
     cmds = ["QUIET 1", "NEW 1 %d %d %d %d %d" % (nx, nsun, nrhos, nsc, t04)] + mode_cmds(1, mode, ticks=max([1] + [h[1] * (3 if h[2] else 1) for h in hist]))
+    if coarse:
+        # deliberately too few fixed steps for the tolerance: GSL's error control must refuse (Evolve throws) - if Evolve
+        # returns normally instead, the clock and the state are judged like any other run
+        cmds.append("STEPPER 1 %s 0 %d" % (mode[0], coarse))
     if hist and hist[0][2]:
         cmds.append("TDEP 1 1")
     if scale_e2:
@@ -210,7 +223,7 @@ def flow_replay(exe, cases, jobs=14, timeout=1800):
     def work(chunk):
         cmds = []
         for i, c in chunk:
-            sc = flow_script(c["edges"][-1]["hist"], c["edges"][-1]["cfg"], c["mode"], c["t04"], c["move"], order_seed=c.get("order", i), scale_e2=c.get("scale", 0))
+            sc = flow_script(c["edges"][-1]["hist"], c["edges"][-1]["cfg"], c["mode"], c["t04"], c["move"], order_seed=c.get("order", i), scale_e2=c.get("scale", 0), coarse=c.get("coarse", 0))
             sc = [x.replace("DUMP 1 seg", "DUMP 1 c%d_" % i).replace("DUMP 2 seg", "DUMP 2 c%d_" % i) for x in sc]
             cmds += sc
         rc, lines, err = run_script(exe, cmds, timeout=timeout)
@@ -244,6 +257,9 @@ def flow_replay(exe, cases, jobs=14, timeout=1800):
                         res.append((i, si, float("inf"), 1.0, float("inf")))
                         continue
                     t, vals = dumps[tag]
+                    if threw.get(tag) and c.get("coarse"):
+                        res.append((i, si, None, 1.0, None))       # refused, as it should be: nothing to judge
+                        break
                     if threw.get(tag) and not c["mode"][1]:
                         # GSL refused a fixed step for error control: a matter of the run's configuration, not of SQuIDS
                         fails.append("GSL reported a step failure in fixed-step mode %s for hist=%s" % (c["mode"], e["hist"]))
